@@ -48,7 +48,11 @@ func getTypeInfo(t reflect.Type) *theTypeInfo {
 
 	// Publish
 	typeInfosMutex.Lock()
-	typeInfos[t] = typeInfo
+	if published, ok := typeInfos[t]; ok {
+		typeInfo = published // another goroutine was first: there must be one descriptor per type
+	} else {
+		typeInfos[t] = typeInfo
+	}
 	typeInfosMutex.Unlock()
 	return typeInfo
 }
